@@ -3,7 +3,7 @@
     what the implementation returned.  [*_mismatch]: model vs implementation.
     [*_violates]: the property acceptor rejects what the implementation did. *)
 From Coq Require Import Uint63.
-From WM Require Import Base.Prelude Message.Model Value.Model Value.Codec Value.Json Value.Reuse Value.Scan Value.Sorted.
+From WM Require Import Base.Prelude Message.Model Value.Model Value.Codec Value.Json Value.Reuse Value.Scan Value.Sorted Value.JsonInt.
 
 (** long byte strings arrive packed, 7 bytes per primitive 63-bit integer (little endian), the
     last word holding [tail] bytes: one cheap token per 7 bytes for Coq's parser.  Only the
@@ -368,6 +368,12 @@ Definition tg_mismatches (cs : list tg_case) := positions (map tg_mismatch cs).
 Definition tg_violations (cs : list tg_case) := positions (map tg_violates cs).
 Definition tg_law_failures (cs : list tg_case) :=
   positions (map (fun c => match t_v c with Some _ => negb (tg_laws c) | None => false end) cs).
+
+(** integers as JSON text against json.Marshal(int64) / json.Unmarshal(.., &int64) *)
+Record ji_case := JiC { i_z : Z; i_enc : list N; i_in : list N; i_dec : option Z }.
+Definition ji_mismatch (c : ji_case) : bool :=
+  negb (bytes_eqb (enc_int (i_z c)) (i_enc c) && option_eqb Z.eqb (dec_int (i_in c)) (i_dec c)).
+Definition ji_mismatches (cs : list ji_case) := positions (map ji_mismatch cs).
 
 Definition js_mismatches (cs : list js_case) := positions (map js_mismatch cs).
 Definition b64_mismatches (cs : list b64_case) := positions (map b64_mismatch cs).
